@@ -19,7 +19,7 @@ def genTbl : ValueText.Tbl :=
   { charMap := Gen.charMap, numMap := Gen.numMap, spaceClass := Gen.spaceClass, tokenClass := Gen.tokenClass,
     numClass := Gen.numClass, escapes := Gen.escapeTable, unescapes := Gen.unescapeTable, terminators := Gen.numberTerminators }
 
-def genCM : CM := { cmOfTbl genTbl [] with depthLimit := Gen.maxParseDepth }
+def genCM : CM := { cmOfTbl genTbl [] with depthLimit := Gen.maxParseDepth, listNeedsMember := Gen.listNeedsMember }
 
 /-- the function bodies the models were written against (hash of each, messages and comments stripped) -/
 def pinnedSkeleton : List (String × String) := [
@@ -77,7 +77,7 @@ def pinnedSkeleton : List (String × String) := [
   ("parser.readNumberToken", "f3b19f6d64a1"),
   ("parser.readString", "898da43fe809"),
   ("parser.readToken", "ef9998d985e1"),
-  ("parser.readType", "72e6db3b5988"),
+  ("parser.readType", "f9e7d1c2a133"),
   ("parser.readValue", "67b6dc0216a2"),
   ("parser.shallower", "6a32e8f2f49b"),
   ("parser.skipBOM", "3748472419d4"),
